@@ -142,7 +142,7 @@ func (s PShape) sentValue(sent []interface{}) interface{} {
 func (s PShape) absentParams() interface{} {
 	name := "V"
 	if s.Loc == "header" {
-		name = "XV"
+		name = headerGoName
 	}
 	return map[string]interface{}{name: nil}
 }
